@@ -30,7 +30,7 @@ SPEC = {
                   "abstract graph, validated by the real Engine over the rsync stand-in on a fresh cache in a watched "
                   "worker process; compared inside Coq: result, payload set, valid/rejected point counts, stored points, "
                   "valid_ca_certs, invalid_certs, number of 'CA depth overrun' log lines. Trusted: Coq kernel, harness, "
-                  "rpkigen ground truth (asserted against the case), watchdog time (20 s per run).",
+                  "rpkigen ground truth (asserted against the case), watchdog time (45 s per case).",
     "rule": "cases: chains of length d-1..d+2 for every limit d in 0..5 (threads 1, and 4 at d+1); eight cycle shapes "
             "(self-issued, own key for another point, two-, three-node, inner cycle, back edge with a fresh key, key reuse "
             "for a new point, cycle with a legitimate tail) x six (limit, threads) pairs over limits {1,2,3,5} and threads {1,4} "
